@@ -192,6 +192,36 @@ func c09History(c *rt.Ctx, fsType string, h int) {
 			return
 		}
 	}
+	// a closed handle stays closed whatever is opened afterwards: calls on it answer as on the underlying file system,
+	// and handles opened since are not affected by them
+	file := ""
+	for _, rec := range fsx.Snap(ref, "/", fsx.SnapOpts{}).Recs {
+		if rec.Type == "f" {
+			file = rec.Path
+			break
+		}
+	}
+	if file != "" {
+		tail := []fsx.Op{{K: "Open", P: file, H: 20}, {K: "F.Close", H: 20}, {K: "Open", P: "/", H: 21}, {K: "Open", P: file, H: 22}, {K: "F.Read", H: 20, N: 4}, {K: "F.Stat", H: 20}, {K: "F.Seek", H: 20, N: 1, M: 0},
+			{K: "F.ReadAt", H: 20, N: 2, M: 0}, {K: "F.Close", H: 20}, {K: "F.Read", H: 22, N: 4}, {K: "F.Stat", H: 22}, {K: "F.Readdirnames", H: 21, N: -1}, {K: "F.Close", H: 21}, {K: "Open", P: file, H: 23}, {K: "F.Readdirnames", H: 21, N: -1},
+			{K: "F.Stat", H: 21}, {K: "F.Read", H: 23, N: 3}, {K: "F.Close", H: 22}, {K: "F.Close", H: 23}}
+		for _, o := range tail {
+			hist = append(hist, o)
+			res, want := env.Exec(o), renv.Exec(o)
+			if fatalRes(res) {
+				return
+			}
+			c.Rep.Case(fmt.Sprintf("RoFS/%s|closed-handle-tail|%s|%s", fsType, o.K, res.Err), true)
+			if after := fsx.Snap(base, "/", snapOpt).String(); after != before {
+				c.Disagree(fmt.Sprintf("RoFS/%s|closed-handle-tail|%s|base-changed", fsType, o.K), fmt.Sprintf("RoFS over %s: %s changed the underlying file system: %v", fsType, o, diffText(before, after)), map[string]any{"fs": fsType, "history_text": opStrings(hist[len(hist)-min3(len(tail), len(hist)):])})
+				return
+			}
+			if !res.Same(want) {
+				c.Disagree(fmt.Sprintf("RoFS/%s|closed-handle-tail|%s|differs-from-base:%s/%s", fsType, o.K, res.Err, want.Err), fmt.Sprintf("RoFS over %s (via Sub %q): after a handle was closed and others were opened, %s returns %s but the underlying file system returns %s", fsType, viaSub, o, res, want), map[string]any{"fs": fsType, "via_sub": viaSub, "tree_seed": []uint64{seedA, seedB}, "history_text": opStrings(hist[len(hist)-min3(len(tail), len(hist)):])})
+				return
+			}
+		}
+	}
 	c.Rep.Count("complete_histories", 1)
 	c.Rep.Sample(map[string]any{"fs": fsType, "via_sub": viaSub, "last_calls": opStrings(hist[len(hist)-5:])}, 3)
 }
